@@ -1,6 +1,6 @@
 #!/bin/bash
 # usage: tools/runall.sh [quick|thorough]  — runs every claimed check on /repo's working tree, one line each
-cd /verif
+cd "$(dirname "$0")/.."
 tier=${1:-quick}
 for id in $(python3 -c "import json;print(' '.join(c['property_id'] for c in json.load(open('MANIFEST.json'))['checks']))"); do
   s=$(date +%s); out=$(./run $id $tier 2>&1); rc=$?; e=$(date +%s)
